@@ -204,7 +204,7 @@ def main():
                 do_molecule(mol, 3, 2)
 
         # (2) random realistic molecules
-        n_mol = 400 if tier == 'quick' else 6000
+        n_mol = 400 if tier == 'quick' else 4500
         for k in range(n_mol):
             full = tier != 'quick' and k % 10 == 0    # every permutation up to 5 fragments, 50 random ones beyond
             do_molecule(gen_molecule(rng, ref, tier), 5 if full else 3, 50 if full else 4)
